@@ -43,13 +43,14 @@ const (
 )
 
 var (
-	privs   []crypto.PrivKey
-	sigTy   []int32
-	keyAddr []string
-	cfgs    = map[string]*types.Chain33Config{}
-	errCls  = map[string]int{}
-	closers sync.WaitGroup
-	nSub    int
+	privs      []crypto.PrivKey
+	sigTy      []int32
+	keyAddr    []string
+	blockedRaw []byte
+	cfgs       = map[string]*types.Chain33Config{}
+	errCls     = map[string]int{}
+	closers    sync.WaitGroup
+	nSub       int
 )
 
 func initKeys() {
@@ -137,13 +138,13 @@ type txSpec struct {
 	Sender   int    `json:"sender"`
 	SigMode  string `json:"sig,omitempty"`   // "" ok | flip | nil | other
 	Other    int    `json:"other,omitempty"` // "other": public key of this account, signature of Sender
-	To       string `json:"to,omitempty"`    // "" valid | bad | blocked
+	To       string `json:"to,omitempty"`    // "" valid | bad | blocked | evmcontract | evmpara | evmok
 	ExpMode  string `json:"exp,omitempty"`   // "" none | height | bt | now | txheight | abs
 	ExpOff   int64  `json:"expoff,omitempty"`
-	FeeK     int64  `json:"feek"`               // fee = owed(rate MinFee*FeeK) + FeeDelta (head of a group: sum over members)
+	FeeK     int64  `json:"feek"` // fee = owed(rate MinFee*FeeK) + FeeDelta (head of a group: sum over members)
 	FeeDelta int64  `json:"feed,omitempty"`
-	FeeAbs   *int64 `json:"feeabs,omitempty"`   // overrides
-	Pad      int    `json:"pad,omitempty"`      // extra payload bytes
+	FeeAbs   *int64 `json:"feeabs,omitempty"` // overrides
+	Pad      int    `json:"pad,omitempty"`    // extra payload bytes
 	ChainBad bool   `json:"chainbad,omitempty"`
 	Nonce    int64  `json:"nonce"`
 	OnChain  bool   `json:"onchain,omitempty"`
@@ -275,6 +276,20 @@ func (ru *run) body(t txSpec, forward bool) *types.Transaction {
 		tx.To = "1VerifNotAnAddressAtAll"
 	case "blocked":
 		tx.To = keyAddr[kBlockedTo]
+	case "evmcontract", "evmpara", "evmok":
+		// evm payload: the real target is inside the action (contract address / 20 raw bytes of a transfer)
+		tx.To = keyAddr[int(t.Uniq%3)]
+		act := &types.EVMContractAction4Chain33{Amount: t.Uniq, Note: "verif", Code: make([]byte, t.Pad)}
+		switch t.To {
+		case "evmcontract":
+			act.ContractAddr = keyAddr[kBlockedTo]
+		case "evmpara":
+			act.Para = blockedRaw
+		default:
+			act.ContractAddr, act.Para = keyAddr[int((t.Uniq+1)%3)], rawOf(keyAddr[int((t.Uniq+2)%3)])
+		}
+		tx.Payload = types.Encode(act)
+		tx.Execer = append(bytes.TrimSuffix(tx.Execer, []byte("none")), []byte("evm")...)
 	default:
 		tx.To = keyAddr[int(t.Uniq%3)]
 	}
@@ -319,7 +334,7 @@ func (ru *run) factsOf(tx *types.Transaction, t txSpec) facts {
 		f.Sender = t.Other
 	}
 	f.Eth = f.HasSig && (f.Sender == kEth0 || f.Sender == kEth1)
-	f.Blocked = f.Sender == kBlocked || t.To == "blocked"
+	f.Blocked = f.Sender == kBlocked || t.To == "blocked" || t.To == "evmcontract" || t.To == "evmpara"
 	// sanity of the labels that are cheap to cross-check without running the code under test
 	if tx.Signature != nil && tx.From() != keyAddr[f.Sender] {
 		panic("sender label")
@@ -331,6 +346,14 @@ func (ru *run) factsOf(tx *types.Transaction, t txSpec) facts {
 		ru.exBad[string(tx.Hash())] = true
 	}
 	return f
+}
+
+func rawOf(addr string) []byte {
+	a, err := address.NewBtcAddress(addr)
+	if err != nil {
+		panic(err)
+	}
+	return append([]byte{}, a.Hash160[:]...)
 }
 
 func decodesAsGroup(h []byte) (bool, int) {
@@ -449,7 +472,7 @@ func (ru *run) build(s subSpec) *built {
 			if ctr > 400000 {
 				panic("header grinding failed")
 			}
-			binary.LittleEndian.PutUint64(ms[last].Payload, s.Txs[last].Uniq+ctr<<40)
+			ms[last].Nonce = s.Txs[last].Nonce + int64(ctr)<<24
 			g.RebuiltGroup() // hashes only; finish() redoes the signatures
 		}
 	}
@@ -504,7 +527,7 @@ func (ru *run) build(s subSpec) *built {
 	of.ID = ru.id(outer.Hash())
 	of.Fee, of.Nonce, of.Size = outer.Fee, outer.Nonce, int64(types.Size(outer))
 	of.Eth = of.HasSig && (of.Sender == kEth0 || of.Sender == kEth1)
-	of.Blocked = of.Sender == kBlocked || s.Txs[0].To == "blocked"
+	of.Blocked = of.Sender == kBlocked || b.members[0].Blocked
 	if s.Txs[0].ExecBad {
 		ru.exBad[string(outer.Hash())] = true
 	}
@@ -755,6 +778,7 @@ func main() {
 	log.Root().SetHandler(log.DiscardHandler())
 	initKeys()
 	initErrClasses()
+	blockedRaw = rawOf(keyAddr[kBlockedTo])
 	restore := types.SetBlockedAccountsForTest([]string{keyAddr[kBlocked], keyAddr[kBlockedTo]})
 	defer restore()
 	o := hlib.NewOut(opts.OutDir)
